@@ -15,7 +15,7 @@ def gen(rng, cid):
     for t in range(k):
         ops = []
         for _ in range(1 + rng.below(4)):
-            o = rng.weighted([('acq', 5), ('rel', 6), ('tryacq', 2), ('timed', 3)])
+            o = rng.weighted([('acq', 5), ('rel', 6), ('tryacq', 2), ('timed', 3), ('timed0', 1), ('timedneg', 1)])
             if o == 'rel':
                 ops.append(f'rel {rng.weighted([(1, 6), (2, 2), (3, 1), (0, 1)])}' if kind == 'counting' else 'rel 1')
             else:
